@@ -353,6 +353,7 @@ type run struct {
 	finished map[int]bool
 	resolved map[int]bool
 	retSeen  map[int]bool
+	modeOf   map[int]int
 	called   []int
 	stopOut  int // calls not yet returned
 	rzOut    int
@@ -526,6 +527,17 @@ func (r *run) load() (active, queued int) {
 	return
 }
 
+// dark = SubmitWait / ExecuteWithWorker calls of which nothing has been seen yet (acceptance is not observable)
+func (r *run) dark() int {
+	n := 0
+	for _, t := range r.called {
+		if r.modeOf[t] != 0 && !r.resolved[t] && !r.started[t] {
+			n++
+		}
+	}
+	return n
+}
+
 // unsettled = calls of which nothing has been seen yet (no return value, no start, no answer)
 func (r *run) unsettled() int {
 	n := 0
@@ -547,7 +559,7 @@ func (r *run) finish(t int) bool {
 
 func enact(sc schedule, idx int, tier string) Case {
 	r := &run{evc: make(chan rawEv, 4096), gates: map[int]chan struct{}{}, started: map[int]bool{}, finished: map[int]bool{},
-		resolved: map[int]bool{}, retSeen: map[int]bool{}, tags: map[string]int{}, settle: 1500 * time.Millisecond}
+		resolved: map[int]bool{}, retSeen: map[int]bool{}, modeOf: map[int]int{}, tags: map[string]int{}, settle: 1500 * time.Millisecond}
 	if tier == "thorough" {
 		r.settle = 2500 * time.Millisecond
 	}
@@ -569,11 +581,21 @@ func enact(sc schedule, idx int, tier string) Case {
 			// keep the number of Submit calls whose fate is not yet visible small: every such call multiplies
 			// the set of model states the Coq monitor has to track
 			r.wait(70*time.Millisecond, func() bool { return r.unsettled() < 2 })
+			// SubmitWait and ExecuteWithWorker do not show whether the task was accepted: until such a call is
+			// answered or its task starts it is "dark", and the monitor must carry every possibility (called /
+			// pending / queued, in every queue order).  At most one dark call at a time; further concurrent
+			// calls are made with Submit, which reports acceptance.
+			mode := sc.modes[l.arg]
+			if mode != 0 && r.dark() >= 1 {
+				mode = 0
+				r.tags["mode_downgraded_to_submit"]++
+			}
+			r.modeOf[l.arg] = mode
 			r.called = append(r.called, l.arg)
-			r.add(fmt.Sprintf("ECall %d", l.arg), fmt.Sprintf("call(%d,%s)", l.arg, []string{"Submit", "SubmitWait", "ExecuteWithWorker"}[sc.modes[l.arg]]))
+			r.add(fmt.Sprintf("ECall %d", l.arg), fmt.Sprintf("call(%d,%s)", l.arg, []string{"Submit", "SubmitWait", "ExecuteWithWorker"}[mode]))
 			r.tags["submits"]++
-			r.tags[[]string{"mode_submit", "mode_submitwait", "mode_executewithworker"}[sc.modes[l.arg]]]++
-			r.submit(l.arg, sc.modes[l.arg])
+			r.tags[[]string{"mode_submit", "mode_submitwait", "mode_executewithworker"}[mode]]++
+			r.submit(l.arg, mode)
 			r.quiet(step)
 		case lSubmitTimeout:
 			t := l.arg
